@@ -129,7 +129,10 @@ func NewStdinReadStorage(reader io.Reader) (*stdinReadStorage, []cid.Cid, error)
 		lk:     &lk,
 		cond:   sync.NewCond(&lk),
 	}
-	rdr, err := car.NewBlockReader(reader)
+	// Standard input may be a pipe: an *os.File whose Seek method fails. Hide
+	// everything but Read so that a CARv2 header's padding is skipped by reading
+	// instead of seeking.
+	rdr, err := car.NewBlockReader(struct{ io.Reader }{reader})
 	if err != nil {
 		return nil, nil, err
 	}
